@@ -902,6 +902,47 @@ func (h *harness) burst() bool {
 	return !h.s.Over()
 }
 
+// reincarnate: a table that has been persisted is dropped, a new table is renamed to its name
+// and dropped again, with and without persists in between (the entry that the rename puts
+// over the dropped table's tombstone must not hide the persisted table).
+func (h *harness) reincarnate() bool {
+	g := h.g
+	sn := h.snapNow(true)
+	if sn == nil {
+		return false
+	}
+	var free []string
+	for _, n := range tableNames {
+		if _, ok := sn.Tables[n]; !ok {
+			free = append(free, n)
+		}
+	}
+	if len(free) < 2 {
+		return true
+	}
+	u, t := free[0], free[1]
+	if g.Coin(1, 2) {
+		u, t = t, u
+	}
+	step := func(r adminReq) bool {
+		if !h.doAdmin(r) || h.s.Over() {
+			return false
+		}
+		if g.Coin(1, 5) {
+			h.persist()
+		}
+		return !h.s.Over()
+	}
+	if !h.doAdmin(adminReq{text: fmt.Sprintf("create %s (a,b) key(a)", u), kind: "create", tbl: u, cols: []string{"a", "b"}}) {
+		return false
+	}
+	h.persist()
+	return step(adminReq{text: "drop " + u, kind: "drop", tbl: u}) &&
+		step(adminReq{text: fmt.Sprintf("create %s (a,c) key(a)", t), kind: "create", tbl: t, cols: []string{"a", "c"}}) &&
+		step(adminReq{text: fmt.Sprintf("rename %s to %s", t, u), kind: "rename", tbl: t, to: u}) &&
+		step(adminReq{text: "drop " + u, kind: "drop", tbl: u})
+}
+
 // persist asks for an explicit persist: everything committed so far must be in it.
 func (h *harness) persist() {
 	floor := len(h.events) - 1
@@ -1099,7 +1140,11 @@ func Run(s *simrt.Sim, mode string, ri *hkit.RunInfo) {
 			// a burst: several schema-only persists, a new table, several data-only
 			// persists, then the table is dropped (the two metadata chains have separate
 			// persist counters; this drives them apart and together again)
-			if !h.burst() {
+			if g.Coin(1, 3) {
+				if !h.reincarnate() {
+					return
+				}
+			} else if !h.burst() {
 				return
 			}
 		}
